@@ -1,0 +1,38 @@
+//go:build verif
+
+package packet
+
+import "io"
+
+// Hooks for the /verif harness (properties C44, C45): expose the unexported byte-level readers.
+
+// VerifReadHeader calls readHeader; kind names the reader returned for the packet contents.
+func VerifReadHeader(r io.Reader) (tag uint8, length int64, kind string, contents io.Reader, err error) {
+	t, l, c, e := readHeader(r)
+	switch c.(type) {
+	case *spanReader:
+		kind = "span"
+	case *partialLengthReader:
+		kind = "part"
+	default:
+		kind = "indet"
+	}
+	return uint8(t), l, kind, c, e
+}
+
+// VerifReadMPI calls readMPI.
+func VerifReadMPI(r io.Reader) ([]byte, uint16, error) { return readMPI(r) }
+
+// VerifSigDetails returns len(rawSubpackets) and the bit lengths of the signature MPIs of a parsed signature.
+func VerifSigDetails(sig *Signature) (nraw int, bits []uint16) {
+	nraw = len(sig.rawSubpackets)
+	switch sig.PubKeyAlgo {
+	case PubKeyAlgoRSA, PubKeyAlgoRSASignOnly:
+		bits = []uint16{sig.RSASignature.bitLength}
+	case PubKeyAlgoDSA:
+		bits = []uint16{sig.DSASigR.bitLength, sig.DSASigS.bitLength}
+	case PubKeyAlgoECDSA:
+		bits = []uint16{sig.ECDSASigR.bitLength, sig.ECDSASigS.bitLength}
+	}
+	return
+}
